@@ -144,6 +144,18 @@ def run(chk):
                         else:
                             ok, detail = True, "tag == %d enforced at line %s (mismatch ends in a no-return call)" % (other[1], x["l"])
                         break
+            if not ok and detail.startswith("no comparison"):
+                # the tag is not tested where it is read.  If its value is handed on -- returned to the caller, or combined into a
+                # value that is tested later (tags of several rows or-ed together and tested once) -- the test is deferred, which the
+                # property allows (the import still ends fatally) and this rule does not model: undecided.  A tag that is read and
+                # then never used at all is a violation.
+                used = any((x["e"] == "return" and isinstance(x.get("val"), tuple) and sym.contains(x["val"], cell)) or
+                           (x["e"] in ("local", "store") and isinstance(x.get("val"), tuple) and sym.contains(x["val"], cell)) or
+                           (x["e"] == "if" and sym.contains(x["cond"], cell))
+                           for x in seq[freads[0] + 1:])
+                if used:
+                    chk.broken("%s: the tag read at line %s is not tested before the next read but handed on (returned or combined into a later test): "
+                               "deferred tag tests are not modelled" % (f.name, first["l"]))
             chk.require(ok, "R1", key, where="%s:%s" % (f.file, first["l"]), ok=detail, bad=detail, variant=vn)
         # the tag constants are pairwise distinct
         tags = {}
